@@ -118,6 +118,11 @@ uint64_t vm_state_digest(const struct vm_state *s)
 	return vm_mix(h, buf_sum(s));
 }
 
+uint64_t vm_full_digest(const struct vm_state *s)
+{
+	return vm_mix(vm_state_digest(s), vm_env->rng_hash ? vm_env->rng_hash() : 0);
+}
+
 static bool pred_of(const struct vm_state *s)
 {
 	switch(VM.pred) {
@@ -285,7 +290,7 @@ void vm_process_event(uint64_t me, double now, unsigned type, const void *pl, un
 		s->h = vm_mix(s->h, rng_step());
 		send_rule(VM.init_rule[me % VM_MAXLP], me, 0.0, VM_NTYPES - 1, NULL, 0, s->h);
 		if(vm_env->on_init)
-			vm_env->on_init(me, vm_state_digest(s), pred_of(s));
+			vm_env->on_init(me, vm_full_digest(s), pred_of(s));
 		return;
 	}
 	if(type == LP_FINI_EV) {
@@ -312,5 +317,5 @@ void vm_process_event(uint64_t me, double now, unsigned type, const void *pl, un
 	if(VM.stop_at && me == 0 && s->count == VM.stop_at && vm_env->stop)
 		vm_env->stop();
 	if(vm_env->on_event)
-		vm_env->on_event(me, now, type, pl, size, vm_state_digest(s), pred_of(s));
+		vm_env->on_event(me, now, type, pl, size, vm_full_digest(s), pred_of(s));
 }
